@@ -89,7 +89,7 @@ func cmdCheck(args []string) {
 	fs := flag.NewFlagSet("check", flag.ExitOnError)
 	repo := fs.String("repo", "/repo", "repository root")
 	tier := fs.String("tier", os.Getenv("VERIF_TIER"), "quick|thorough")
-	jobs := fs.Int("jobs", 8, "parallel obligations")
+	jobs := fs.Int("jobs", defaultJobs(), "parallel obligations")
 	noReplay := fs.Bool("no-replay", false, "skip counterexample replay")
 	quiet := fs.Bool("q", false, "less output")
 	only := fs.String("only", "", "development aid: restrict to functions whose key contains this substring (evidence is then partial)")
@@ -127,12 +127,14 @@ func cmdCheck(args []string) {
 	if *tier == "thorough" {
 		timeout = 60
 		twoAgree = true
+		probeInlined = true
 	}
 	work, _ := os.MkdirTemp("", "govc")
 	defer os.RemoveAll(work)
 
 	// 1. deductive part: functions under contract for this property
 	var keys []string
+	tagOnly := map[string]bool{} // functions selected only because some of their clauses are labelled with this property
 	for k, fc := range p.cons.funcs {
 		if fc.trusted || fc.inline || strings.Contains(k, ".iface:") || strings.Contains(k, ".functype:") {
 			continue
@@ -140,15 +142,20 @@ func cmdCheck(args []string) {
 		if *only != "" && !strings.Contains(k, *only) {
 			continue
 		}
-		for _, pr := range fc.props {
-			if pr == prop {
-				keys = append(keys, k)
-			}
+		if fc.hasProp(prop) {
+			keys = append(keys, k)
+		} else if fc.taggedFor(prop) {
+			keys = append(keys, k)
+			tagOnly[k] = true
 		}
 	}
 	sort.Strings(keys)
 	var results []*funcResult
 	for _, k := range keys {
+		if strings.Contains(k, ".lemma:") {
+			results = append(results, verifyLemma(p, k, p.cons.funcs[k]))
+			continue
+		}
 		fn, ok := p.funcs[k]
 		if !ok {
 			results = append(results, &funcResult{key: k, err: "function under contract no longer exists in the tree"})
@@ -157,6 +164,21 @@ func cmdCheck(args []string) {
 		t1 := time.Now()
 		r := verifyFunction(p, fn, p.cons.funcs[k], false)
 		r.genS = time.Since(t1).Seconds()
+		// keep the obligations that belong to this property
+		var keep []*obligation
+		for _, o := range r.obls {
+			if o.onlyProp != "" && o.onlyProp != prop {
+				continue
+			}
+			if tagOnly[k] && o.onlyProp != prop && !o.canary {
+				continue
+			}
+			keep = append(keep, o)
+		}
+		r.obls = keep
+		if tagOnly[k] {
+			r.reach = nil
+		}
 		results = append(results, r)
 	}
 	for _, k := range p.cons.missing {
@@ -207,6 +229,12 @@ func cmdCheck(args []string) {
 		}
 		nOb, nDis := 0, 0
 		for _, o := range r.obls {
+			if o.onlyProp != "" && o.onlyProp != prop {
+				continue
+			}
+			if tagOnly[r.key] && o.onlyProp != prop && !o.canary {
+				continue
+			}
 			if reason, un := isUnclaimed(o.name); un {
 				rep.unclaimedN++
 				rep.unclaimed = append(rep.unclaimed, o.name+": "+reason)
@@ -442,4 +470,3 @@ func writeEvidence(vdir string, rep *checkReport) {
 	data, _ := json.MarshalIndent(ev, "", " ")
 	os.WriteFile(filepath.Join(vdir, "evidence", rep.prop+".json"), data, 0o644)
 }
-
